@@ -189,9 +189,9 @@ def run(ctx):
     jobs += [("CNOT", (t,)) for t in (0, 1)] + [("CNOT_Heralded", (t,)) for t in (0, 1)]
     jobs += [("CCNOT", (t,)) for t in (0, 1, 2)]
     # the target qubit handed over as other integer-valued types (a loop over numpy.arange, an index read from an array)
-    for ty in (np.int64, np.int32, np.intp, np.uint8, float):
+    for ty in (np.int64, np.int32, np.intp, np.uint8, float, bool, np.bool_):
         jobs += [("CNOT", (ty(t),)) for t in (0, 1)] + [("CNOT_Heralded", (ty(t),)) for t in (0, 1)]
-        jobs += [("CCNOT", (ty(t),)) for t in (0, 1, 2)]
+        jobs += [("CCNOT", (ty(t),)) for t in ((0, 1, 2) if ty not in (bool, np.bool_) else (0, 1))]
     for a0, a1, b0, b1 in permutations(range(6), 4):
         jobs.append(("SWAP", ((a0, a1), (b0, b1))))
     # SWAP between far-apart qubits in wide registers (the gate spans max(mode)+1 modes, the other modes stay put)
